@@ -1,16 +1,63 @@
 import CogentModel.Model.View
 import CogentModel.Model.FeatureView
+import CogentModel.Model.FeatureSeq
 import CogentModel.Spec.FeatureView
 import CogentModel.Proofs.ViewInv
 import CogentModel.Proofs.FeatureView
+import CogentModel.Proofs.FeatureOnView
 /-! # C04 — annotations keep denoting the same residues through every view
 
-All theorems are about views satisfying C01's representation invariant with `|step| = 1`
-(`UnitView`): by C01's `mk_inv` every constructor call yields such an invariant view, whatever
-the depth of slicing / reverse complementing, and any `offset`.  `segStart v` is the absolute
-plus-strand start of the parent segment the view retains, `len v` its length. -/
+The model mirrors `make_feature` as it is since commit 11fcfbb18 (spans that only touch a view
+boundary are dropped).  All theorems are about views satisfying C01's representation invariant
+with `|step| = 1` (`UnitView`): by C01's `mk_inv` / `getitem_inv` / `reachable_inv` every view
+reached by any history of slicing / reverse complementing satisfies `Inv`, at any `offset`.
+`segStart v` is the absolute plus-strand start of the parent segment the view retains and
+`len v` its length; `WF s` is C01's well-formedness of the `Sequence` wrapper (`Inv` + parent
+string of the recorded length), preserved by `seq_wf_getitem` / `seq_wf_rc`.  Feature spans are
+as the annotation db stores them (C17 `add_feature` normalisation): `0 ≤ start < end`, ordered
+by start. -/
 namespace CogentModel.C04
-open CogentModel.View CogentModel.FeatureView
+open CogentModel.View CogentModel.FeatureView CogentModel.FeatureSpec CogentModel.SeqWrap
+
+/-- **feature_on_view.**  For every well-formed nucleic `Sequence` whose view has unit stride
+(forward or reverse complemented, any slicing depth, any annotation offset) and every feature
+(any number of spans, either strand): `get_features` builds the feature without an exception
+and `feature.get_slice()` returns exactly the parent residues at `denote f ∩ retained segment`,
+in reading order, complemented iff the feature is on the minus strand. -/
+theorem feature_on_view (comp : Char → Char) (hcomp : ∀ x, comp (comp x) = x) (s : Seq) (hw : WF s)
+    (hn : s.nucleic = true) (hu : UnitView s.v) (hl : 0 < len s.v) (minus : Bool) (spans : List (Int × Int))
+    (hsp : ∀ sp ∈ spans, 0 ≤ sp.1 ∧ sp.1 < sp.2) (hsorted : spans.Pairwise (fun a b => a.1 ≤ b.1)) :
+    ∃ f, featureOnView s.v minus spans = .ok f ∧
+      getSlice comp s f =
+        (denote spans minus (segStart s.v) (segStart s.v + len s.v)).1.map
+          (fun p => (if minus then comp else id) (s.parent[(p - s.v.offset).toNat]!)) :=
+  getSlice_spec comp hcomp s hw hn hu hl minus spans hsp hsorted
+
+-- view `rc(parent[1:6])` of `CCCGGCAT`, feature spans (0,1),(2,3),(4,5) on the minus strand: the spans
+-- (2,3),(4,5) are retained, (0,1) only touches the view start and is dropped
+example :
+    let s : Seq := { parent := "CCCGGCAT".toList, v := { start := -3, stop := -8, step := -1, offset := 0, seqLen := 8 }, nucleic := true }
+    WF s ∧ UnitView s.v ∧
+    (match featureOnView s.v true [(0, 1), (2, 3), (4, 5)] with
+      | .ok f => getSlice (fun c => if c = 'G' then 'C' else if c = 'C' then 'G' else if c = 'A' then 'T' else if c = 'T' then 'A' else c) s f
+                  == "CG".toList
+      | .error _ => false) = true := by
+  decide
+
+/-- The same at the level of positions, for any view record (no parent string needed): the
+absolute plus-strand positions read by `get_slice`, in order, are `denote`. -/
+theorem feature_positions_on_view (v : View) (h : UnitView v) (hl : 0 < len v) (minus : Bool)
+    (spans : List (Int × Int)) (hsp : ∀ sp ∈ spans, 0 ≤ sp.1 ∧ sp.1 < sp.2)
+    (hsorted : spans.Pairwise (fun a b => a.1 ≤ b.1)) :
+    ∃ f, featureOnView v minus spans = .ok f ∧
+      slicePositions v f = denote spans minus (segStart v) (segStart v + len v) :=
+  featureOnView_spec v h hl minus spans hsp hsorted
+
+example : UnitView { start := -3, stop := -8, step := -1, offset := 5, seqLen := 8 } ∧
+    (match featureOnView { start := -3, stop := -8, step := -1, offset := 5, seqLen := 8 } false [(5, 8), (9, 12)] with
+      | .ok f => slicePositions { start := -3, stop := -8, step := -1, offset := 5, seqLen := 8 } f == ([6, 7, 9, 10], false)
+      | .error _ => false) = true := by
+  decide
 
 /-- `get_features(start=a, stop=b)` sends to the annotation db exactly the absolute plus-strand
 image of the relative window: `[p0+a, p0+b)` on a forward view, `[p0+L-b, p0+L-a)` on a
@@ -28,54 +75,59 @@ example : UnitView { start := -3, stop := -9, step := -1, offset := 5, seqLen :=
   decide
 
 /-- Every absolute db coordinate is turned into its offset from the start of the retained parent
-segment — on forward *and* reverse-complemented views (the `len(self) - x` flip undoes the
-reversed `relative_position`), for any depth of slicing and any annotation offset. -/
+segment — on forward *and* reverse-complemented views. -/
 theorem rel_coord_exact (v : View) (h : UnitView v) (hl : 0 < len v) (c : Int) (hc : 0 ≤ c) :
     relCoord v c = .ok (c - segStart v) :=
   relCoord_exact v h hl c hc
 
 example : relCoord { start := -3, stop := -9, step := -1, offset := 5, seqLen := 10 } 9 = .ok 2 := by decide
 
-/-- One span through `make_feature`'s clipping and `_spans_from_locations`: the real (non-lost)
-part is exactly the span intersected with the view `[0, L)`, and lies inside the view —
-**provided the span does not end exactly at the view start** (`e ≠ 0`). -/
-theorem span_on_view_partial (L s e : Int) (hL : 0 < L) (hse : s < e) (he : e ≠ 0) :
+/-- `relative_position(absolute_position(i)) = i` for every index of a non-empty unit-stride view
+(and for the end boundary `i = len` with `include_boundary=True`). -/
+theorem rel_abs_inverse (v : View) (h : UnitView v) (hl : 0 < len v) (hoff : 0 ≤ v.offset) (i : Int) (b : Bool)
+    (h0 : 0 ≤ i) (h1 : i < len v ∨ (i = len v ∧ b = true)) :
+    ∃ a, absolutePosition v i b = .ok a ∧ relativePosition v a false = .ok i :=
+  rel_abs v h hl hoff i b h0 h1
+
+/-- `absolute_position(relative_position(a)) = a` for every absolute coordinate of the retained
+segment, boundaries included. -/
+theorem abs_rel_inverse (v : View) (h : UnitView v) (hl : 0 < len v) (a : Int) (ha : 0 ≤ a)
+    (h0 : segStart v ≤ a) (h1 : a ≤ segStart v + len v) :
+    ∃ r, relativePosition v a false = .ok r ∧ absolutePosition v r true = .ok a :=
+  abs_rel v h hl a ha h0 h1
+
+example : absolutePosition { start := -3, stop := -9, step := -1, offset := 5, seqLen := 10 } 2 = .ok 11 ∧
+    relativePosition { start := -3, stop := -9, step := -1, offset := 5, seqLen := 10 } 11 = .ok 2 := by decide
+
+/-- **span_on_view** (full strength): one span through `make_feature`'s clipping and
+`_spans_from_locations` never raises; its real part is exactly the span intersected with the
+view `[0, L)` and lies inside the view. -/
+theorem span_on_view (L s e : Int) (hL : 0 < L) (hse : s < e) :
     ∃ m, clipLocate L (s, e) = .ok m ∧
-      realSpans m = (if max s 0 < min e L ∨ s = L then [(max s 0, min e L)] else []) ∧
+      realSpans m = (if max s 0 < min e L then [(max s 0, min e L)] else []) ∧
       (∀ a b, MSpan.span a b ∈ m → 0 ≤ a ∧ a ≤ b ∧ b ≤ L) :=
-  clipLocate_exact L s e hL hse he
+  clipLocate_exact L s e hL hse
 
 example : clipLocate 5 (-2, 9) = .ok [.span 0 5, .lost 4] ∧ clipLocate 5 (3, 9) = .ok [.span 3 5] ∧
-    clipLocate 5 (7, 9) = .ok [] := by decide
+    clipLocate 5 (7, 9) = .ok [] ∧ clipLocate 5 (-1, 0) = .ok [] ∧ clipLocate 5 (5, 8) = .ok [] := by decide
 
-/-- `make_feature` returns a feature (no exception) for every multi-span record on a view of
-positive length, forward or reverse complemented — **provided no span ends exactly at the view
-start** and the kept spans pass `_spans_from_locations`' first/last order check (true for the
-sorted spans the db stores). -/
-theorem no_raise_partial_feature_partial (L : Int) (rced minus : Bool) (spans : List (Int × Int)) (hL : 0 < L)
-    (hsp : ∀ sp ∈ spans, sp.1 < sp.2 ∧ sp.2 ≠ 0)
-    (hord : firstLastOk (spans.filterMap (clipSpan L)) = true) :
-    ∃ f, makeFeature L rced minus spans = .ok f :=
-  makeFeature_ok L rced minus spans hL hsp hord
+/-- **no_raise_partial_feature** (full strength): `make_feature` returns a feature — never an
+exception — for every record on a view of positive length, however its spans fall relative to the
+view (inside, straddling, touching, outside), forward or reverse complemented. -/
+theorem no_raise_partial_feature (L : Int) (rced minus : Bool) (spans : List (Int × Int)) (hL : 0 < L)
+    (hsp : ∀ sp ∈ spans, sp.1 < sp.2) (hsorted : spans.Pairwise (fun a b => a.1 ≤ b.1)) :
+    ∃ f, makeFeature L rced minus spans = .ok f := by
+  obtain ⟨f, hf, _⟩ := makeFeature_spec L rced minus spans hL hsp hsorted
+  exact ⟨f, hf⟩
 
+-- the former counterexample (a span ending exactly at the view start) is now a feature
+example : makeFeature 5 false false [(-1, 0), (1, 2), (3, 4)] =
+    .ok { spans := [.lost 1, .span 1 2, .span 3 4], reversed := false } := by decide
 example : makeFeature 5 true false [(-3, 1), (2, 3), (4, 8)] =
     .ok { spans := [.lost 3, .span 0 1, .span 2 3, .span 4 5, .lost 3], reversed := true } := by decide
 
-/- FULL STATEMENT (not proved): the same without `sp.2 ≠ 0`, i.e. for every feature that is only
-   partly inside the view.  False of the mirrored model: a span that ends exactly at the view
-   start becomes `(s, 0)` with `s < 0`; `make_feature` neither clips it (`min < 0 < max` fails) nor
-   drops it (`max < 0` fails), and `_spans_from_locations` raises `ValueError`.  Witness below
-   (view `[1:6]` of an 8-mer, spans `(0,1),(2,3),(4,5)`); replayed on the real code by
-   harness/c04.py `check_witness`. -/
-theorem no_raise_counter :
-    makeFeature 5 false false [(-1, 0), (1, 2), (3, 4)] = .error .valueError ∧
-    featureOnView { start := 1, stop := 6, step := 1, offset := 0, seqLen := 8 } false [(0, 1), (2, 3), (4, 5)]
-      = .error .valueError := by
-  decide
-
 /-- The strand flag: the letters `get_slice` returns are complemented iff the *feature* is on the
-minus strand, whatever the orientation of the view (`strand = "+" if revd == seq_rced else "-"`
-combined with the view's own complement). -/
+minus strand, whatever the orientation of the view. -/
 theorem complement_iff_minus (L : Int) (rced minus : Bool) (spans : List (Int × Int)) (f : Feat)
     (h : makeFeature L rced minus spans = .ok f) : (rced != f.reversed) = minus := by
   unfold makeFeature at h
